@@ -80,9 +80,11 @@ type DirCase struct {
 	MixV0    bool      `json:"mixv0"`
 	Timeout  bool      `json:"timeout"` // injected load errors report themselves as timeouts
 	ErrKind  string    `json:"errkind"` // injected error kind that wins over both: eofwrap | unexpectedeof
+	// SizeBase > 0: entry i is declared with cumulative size SizeBase+i instead of its target's length
+	SizeBase int64 `json:"sizebase"`
 	// EmptyShard: the sharded builder's root additionally links (at its lowest unused bucket) to a child shard that holds nothing
-	EmptyShard bool `json:"emptyshard"`
-	Hasher   uint64    `json:"hasher"`  // sharded builder: multihash code of the name hasher (0 = murmur3)
+	EmptyShard bool   `json:"emptyshard"`
+	Hasher     uint64 `json:"hasher"` // sharded builder: multihash code of the name hasher (0 = murmur3)
 	// UniverseHex carries the names byte-exactly (JSON strings cannot hold bytes that are not valid UTF-8)
 	UniverseHex []string `json:"universehex"` // entries with odd ids point at a CIDv0 (34-byte) target instead of a CIDv1 (36-byte) one
 }
@@ -120,7 +122,11 @@ func entryLinks(dc *DirCase, targets []cid.Cid, st *Store) ([]dagpb.PBLink, erro
 			t = v0Target(st)
 		}
 		b, _ := st.Get(t)
-		l, err := builder.BuildUnixFSDirectoryEntry(dc.Universe[id-1], int64(len(b)), cidlink.Link{Cid: t})
+		sz := int64(len(b))
+		if dc.SizeBase > 0 {
+			sz = dc.SizeBase + int64(id) // the declared cumulative size of the entry (what a multi-gigabyte file reports)
+		}
+		l, err := builder.BuildUnixFSDirectoryEntry(dc.Universe[id-1], sz, cidlink.Link{Cid: t})
 		if err != nil {
 			return nil, err
 		}
@@ -667,6 +673,11 @@ func runDirCase(dc *DirCase, tr *Tr) error {
 		if pm := guard(func() {
 			if dc.Open == "preload" {
 				n, err = ls.KnownReifiers["unixfs-preload"](lctx, rootNode, ls)
+			} else if dc.Open == "lsreify" {
+				// the link system itself reifies whatever it loads (NodeReifier, as fetchers and gateways configure it):
+				// the root and every child shard come back from Load already reified
+				ls.NodeReifier = unixfsnode.Reify
+				n, err = ls.Load(lctx, cidlink.Link{Cid: root}, dagpb.Type.PBNode)
 			} else {
 				n, err = unixfsnode.Reify(lctx, rootNode, ls)
 			}
